@@ -22,6 +22,9 @@ type B struct {
 	// earlyExitsOK: FullScan is asked about a search loop — every index is visited unless the
 	// loop is left from inside an iteration (the caller decides what those exits mean)
 	earlyExitsOK bool
+	// rotated: set by loopGuard when the loop's bound test sits at the bottom (the condition it
+	// returns is then about the NEXT iteration, at this iteration's values)
+	rotated bool
 }
 
 func NewB(a *Analysis, r *Registry) *B {
@@ -177,9 +180,26 @@ func (fc *FC) calleeName(c ssa.CallInstruction) string {
 		return "builtin:" + b.Name()
 	}
 	if f := cm.StaticCallee(); f != nil {
-		return fc.X.W.FuncName(f)
+		return canonCallee(fc.X.W.FuncName(f))
 	}
 	return ""
+}
+
+// canonCallee: the ascending sorts of package slices (Go 1.21) under the names of the
+// package sort functions they replace (same order, NaNs first).
+func canonCallee(n string) string {
+	if strings.HasPrefix(n, "slices.IsSorted[") && strings.Contains(n, "float64") {
+		return "sort.Float64sAreSorted"
+	}
+	if strings.HasPrefix(n, "slices.Sort[") {
+		switch {
+		case strings.Contains(n, "float64"):
+			return "sort.Float64s"
+		case strings.Contains(n, "[]int,") || strings.HasSuffix(n, "int]"):
+			return "sort.Ints"
+		}
+	}
+	return n
 }
 
 // CallsTo lists reachable calls whose callee short name equals name
@@ -2691,6 +2711,18 @@ func (b *B) fullScanFrom(rule, construct, where string, fc *FC, idx, n *RF, maxF
 		}
 	}
 	if k == nil {
+		// the index counted down through an ascending counter: idx = c - k (`for i := range n { j := n-1-i … }`)
+		for _, ph := range fc.loopPhis(idx) {
+			pa := ph.SingleAtom()
+			if pa == nil || len(FindAtomID(idx.Add(ph), pa.ID)) > 0 {
+				continue
+			}
+			plfc := b.X.phiFC[pa.ID]
+			pi, pn := recurrenceOrNil(plfc, ph)
+			if pi != nil && pn.Equal(ph.Add(s.Int(1))) {
+				return b.fullScanDown(rule, construct, where, plfc, b.X.phiOf[pa.ID].Block(), ph, pi, idx, n, maxFirst)
+			}
+		}
 		b.R.Fail(rule, construct, where, "the index "+clip(idx.String(), 80)+" is not a loop counter plus a constant")
 		return false
 	}
@@ -2716,6 +2748,22 @@ func (b *B) fullScanFrom(rule, construct, where string, fc *FC, idx, n *RF, maxF
 		return false
 	}
 	want := s.Cmp("<", idx, n)
+	if b.rotated {
+		// bottom-tested: goes round again while the next index is in range — and must be entered
+		// only when the first one is
+		want = s.Cmp("<", idx.Add(s.Int(1)), n)
+		first := idx.Subst(map[AtomID]*RF{kat.ID: ki})
+		for _, p := range lfc.Ctx.LivePreds(hdr) {
+			if l.Body[p.Index] {
+				continue
+			}
+			ec := lfc.edgeCond(p, hdr)
+			if fw := s.Cmp("<", first, n); !(ec.Equal(fw) || b.X.EquivByCases(ec, fw, 0)) {
+				b.R.Fail(rule, construct, where, "the bottom-tested loop is entered under "+clip(ec.String(), 100)+", not exactly when the first index "+clip(first.String(), 40)+" is below "+clip(n.String(), 60))
+				return false
+			}
+		}
+	}
 	if b.earlyExitsOK {
 		// a search loop may carry its hit test in the loop condition (`for k < n && a[k] == b[k]`):
 		// the other conjuncts are early exits
@@ -2890,6 +2938,51 @@ func FindAtomID(r *RF, id AtomID) []*Atom {
 	return out
 }
 
+// unrotate: a bottom-tested loop whose bottom test is G(k + step) for a counter k of constant
+// step and which is entered exactly under G(first value of k) is the while-loop `for G(k)`:
+// returns G(k), or nil.
+func (b *B) unrotate(lfc *FC, l *Loop, hdr *ssa.BasicBlock, bottom *RF) *RF {
+	s := b.X.S
+	for _, in := range hdr.Instrs {
+		ph, ok := in.(*ssa.Phi)
+		if !ok {
+			break
+		}
+		k := lfc.Val(ph)
+		ka := k.SingleAtom()
+		if ka == nil || !ka.Int || b.X.phiOf[ka.ID] != ph || len(FindAtomID(bottom, ka.ID)) == 0 {
+			continue
+		}
+		ki, kn := recurrenceOrNil(lfc, k)
+		if ki == nil {
+			continue
+		}
+		step := kn.Sub(k)
+		if c, isC := step.IsConst(); !isC || c.Sign() == 0 {
+			continue
+		}
+		g := bottom.Subst(map[AtomID]*RF{ka.ID: k.Sub(step)})
+		gFirst := g.Subst(map[AtomID]*RF{ka.ID: ki})
+		ok2 := true
+		n := 0
+		for _, p := range lfc.Ctx.LivePreds(hdr) {
+			if l.Body[p.Index] {
+				continue
+			}
+			n++
+			ec := lfc.edgeCond(p, hdr)
+			if !(ec.Equal(gFirst) || b.X.EquivByCases(ec, gFirst, 0)) {
+				ok2 = false
+			}
+		}
+		if ok2 && n > 0 {
+			_ = s
+			return g
+		}
+	}
+	return nil
+}
+
 // loopGuard: the condition under which the loop headed by hdr runs another
 // iteration's body — the header's test together with the tests of a
 // short-circuit chain sharing its exit (`for a && b`) — with dead latch flags
@@ -2904,8 +2997,47 @@ func (b *B) loopGuard(lfc *FC, hdr *ssa.BasicBlock) (l *Loop, cond *RF, guard ma
 	if l == nil {
 		return nil, nil, nil, "loop not found"
 	}
-	if _, ok := hdr.Instrs[len(hdr.Instrs)-1].(*ssa.If); !ok {
+	b.rotated = false
+	hdrTests := false
+	if _, ok := hdr.Instrs[len(hdr.Instrs)-1].(*ssa.If); ok {
+		for _, sc := range hdr.Succs {
+			if !l.Body[sc.Index] {
+				hdrTests = true // the header's branch can leave the loop: a bound test
+			}
+		}
+	}
+	if !hdrTests {
+		// a rotated loop (the form go/ssa gives `for i := range n`): entered under a test of the
+		// first index, the bound tested again at the bottom for the next one
+		if len(l.Latch) == 1 {
+			lt := l.Latch[0]
+			if _, isIf := lt.Instrs[len(lt.Instrs)-1].(*ssa.If); isIf && len(lt.Succs) == 2 {
+				var out *ssa.BasicBlock
+				for _, sc := range lt.Succs {
+					if !l.Body[sc.Index] {
+						out = sc
+					}
+				}
+				if out != nil {
+					bottom := lfc.edgeCond(lt, hdr)
+					if g := b.unrotate(lfc, l, hdr, bottom); g != nil {
+						return l, g, map[int]bool{lt.Index: true}, ""
+					}
+					b.rotated = true
+					return l, bottom, map[int]bool{lt.Index: true}, ""
+				}
+			}
+		}
 		return nil, nil, nil, "the loop has no bound test at its header"
+	}
+	for _, sc := range hdr.Succs {
+		if sc == hdr {
+			// (a one-block rotated loop: the header is its own latch)
+			if g := b.unrotate(lfc, l, hdr, lfc.edgeCond(hdr, hdr)); g != nil {
+				return l, g, map[int]bool{hdr.Index: true}, ""
+			}
+			b.rotated = true
+		}
 	}
 	var exit, body *ssa.BasicBlock
 	for _, sc := range hdr.Succs {
